@@ -18,6 +18,7 @@ def run(tier, seed):
     n = 16 * 20000 if tier == "thorough" else 24000
     cases, sums, notes = core.run_sharded(exe, "c14", seed, tier, core.NCPU if tier == "thorough" else 8, extra={"n": n}, timeout=3000)
     r.add_cases(cases, "native")
+    core.also_librel(r, tier, False, lambda exe2: core.run_sharded(exe2, "c14", seed, tier, core.NCPU if tier == "thorough" else 8, extra={"n": n}, timeout=3000))
     r.notes += notes
     obs = core.sum_dicts(sums)
     r.observe("native", obs)
@@ -29,7 +30,7 @@ def run(tier, seed):
 def replay(path):
     import subprocess
     rp = core.load_replay(path)
-    exe = core.build_native()
+    exe = core.build_native(libopt="librel" in str(rp.get("engine", "")))
     p = subprocess.run([exe, "c14", "--seed", str(rp["seed"]), "--tier", rp["tier"], "--only", str(rp["case_index"]), "--n", str(rp.get("args", {}).get("n", 2400))], stdout=subprocess.PIPE, text=True)
     print(p.stdout[-2000:])
     return 1 if ('"verdict":"violated"' in p.stdout or p.returncode not in (0,)) else 0
